@@ -207,14 +207,21 @@ def write_bundle(S, path):
                         "contract_multiplier": f["mult"], "underlying_symbol": f["under"], "listed_date": "2000-01-01",
                         "de_listed_date": dl, "maturity_date": dl, "exchange": "SHFE",
                         "trading_hours": "09:01-10:15,10:31-11:30,13:31-15:00"})
-    infos = list({f["info"]["underlying_symbol"]: f["info"] for f in S["futures"]}.values()) or [{"underlying_symbol": "RB", "close_commission_ratio": 0.0001,
+    # underlying-level entries; a contract with its own entry ("under_info" holds what the underlying says) gets a contract-level one as well
+    contract_infos = [dict({k_: v_ for k_, v_ in f["info"].items() if k_ != "underlying_symbol"}, order_book_id=f["id"]) for f in S["futures"] if f.get("under_info")]
+    infos = list({f["info"]["underlying_symbol"]: f.get("under_info", f["info"]) for f in S["futures"]}.values()) + contract_infos or [{"underlying_symbol": "RB", "close_commission_ratio": 0.0001,
                                                    "close_commission_today_ratio": 0.0003, "commission_type": "by_money",
                                                    "open_commission_ratio": 0.0001, "margin_rate": 0.1, "tick_size": 1.0}]
     json.dump(infos, open(os.path.join(path, "future_info.json"), "w"))
     pickle.dump(ins, open(os.path.join(path, "instruments.pk"), "wb"))
     with h5py.File(os.path.join(path, "dividends.h5"), "w") as h:
         for k, v in S["div"].items():
-            h.create_dataset(k, data=np.array(v, dtype=DDT))
+            if S.get("_old_div_layout"):
+                # the older bundle layout without the book_closure_date column (the record date is then the trading day before the ex-date)
+                odt = np.dtype([(n_, DDT.fields[n_][0]) for n_ in DDT.names if n_ != "book_closure_date"])
+                h.create_dataset(k, data=np.array([tuple(x for n_, x in zip(DDT.names, row) if n_ != "book_closure_date") for row in v], dtype=odt))
+            else:
+                h.create_dataset(k, data=np.array(v, dtype=DDT))
     with h5py.File(os.path.join(path, "split_factor.h5"), "w") as h:
         for k, v in S["split"].items():
             h.create_dataset(k, data=np.array(v, dtype=np.dtype([('ex_date', '<i8'), ('split_factor', '<f8')])))
